@@ -382,7 +382,7 @@ static void run_op(CWorld &w, const Op &op)
 	int nf = (int)std::max<long>(1, op.I(0));
 	std::string what;
 	for (int q = 0; q < nf && !d.empty(); ++q) {
-	    int kind = (int)r.below(13);
+	    int kind = (int)r.below(15);
 	    size_t pos = (size_t)r.below((long)d.size());
 	    switch (kind) {
 	    case 0: d[pos] ^= (char)(1 << r.below(8)); what += strf("bitflip@%zu ", pos); break;
@@ -424,6 +424,21 @@ static void run_op(CWorld &w, const Op &op)
 		if (kind == 12 && d[b] == '[') { size_t cl = d.find(']', b); if (cl != std::string::npos) e2 = cl + 1; }
 		d.replace(b, e2 - b, words[r.below(nw)]);
 		what += strf("keyword@%zu ", b);
+		break; }
+	    case 13:
+	    case 14: {	// insert a complete, well-formed line of one of the formats, indented like the line it lands before
+		static const char *lines[] = {"type: T8", "type: U8", "type: TE10", "type: UE10", "type: T16", "type: U16", "type: UE14", "type: E12", "rows: 2", "columns: 2", "rows: 1", "columns: 1",
+		    "frequencies: 1", "z0: 50 0j", "name: x", "data: []", "properties: {a: b}", "version: 1.0", "f: 1e9", "e: []", "- f: 1e9",
+		    "[Reference] 50 75", "[Matrix Format] Lower", "[Matrix Format] Upper", "[Number of Ports] 3", "[Number of Ports] 2", "[Number of Frequencies] 1", "[Two-Port Order] 21_12",
+		    "[Number of Noise Frequencies] 1", "[Noise Data]", "[Network Data]", "[End]", "[Version] 2.0", "[Version] 1.0", "# GHz Y MA R 75", "# Hz S RI",
+		    "#:ports 3", "#:rows 2", "#:columns 2", "#:frequencies 1", "#:z0 PER-FREQUENCY", "#:z0 50 0 75 0", "#:parameters Sri", "#:parameters", "#:fprecision 3", "#:dprecision 3", "#:version 1.0", "#NPD",
+		    "- 1", "? [a]: b", "k: &x y", "k2: *x", "%YAML 1.1", "---", "..."};
+		const int nl = (int)(sizeof lines / sizeof lines[0]);
+		size_t b = d.rfind('\n', pos); b = b == std::string::npos ? 0 : b + 1;
+		size_t ind = b; while (ind < d.size() && d[ind] == ' ') ++ind;
+		std::string ins = d.substr(b, ind - b) + lines[r.below(nl)] + "\n";
+		d.insert(b, ins);
+		what += strf("insline@%zu ", b);
 		break; }
 	    default: { size_t len = (size_t)r.range(1, 64); std::string junk; for (size_t z = 0; z < len; ++z) junk += (char)r.below(256); d.replace(pos, std::min(len, d.size() - pos), junk); what += strf("random@%zu+%zu ", pos, len); }
 	    }
